@@ -46,7 +46,7 @@ def corr_case(draw):
     return {'species': sp, 'phase': phase, 'models': models, 'supplied': supplied,
             'add': draw(st.sampled_from(['default', 'default', True, False])), 'scalar_T': nT == 0, 'T': Ts,
             'P': draw(gen.logf(1e-3, 1e2)), 'x': x, 'x_global': draw(st.one_of(st.none(), st.floats(0, 1))),
-            'path': draw(st.sampled_from(['direct', 'direct', 'deepcopy', 'dict1', 'dict2', 'dict3', 'json1', 'from_data'])),
+            'path': draw(st.sampled_from(['direct', 'direct', 'deepcopy', 'dict1', 'dict2', 'dict3', 'json1', 'from_data', 'from_model'])),
             'container': draw(st.sampled_from(['ndarray', 'list']))}
 
 
@@ -81,6 +81,13 @@ def _construct(case, phase, models, add):
         from pmutt.empirical.shomate import Shomate
         return Shomate.from_data(name='X', T=T, CpoR=CpoR, T_ref=500., HoRT_ref=-10., SoR_ref=25., phase=phase,
                                  misc_models=models, **extra)
+    if case['path'] == 'from_model' and sp['cls'] in ('Nasa', 'Nasa9', 'Shomate'):
+        from pmutt.empirical.nasa import Nasa, Nasa9
+        from pmutt.empirical.shomate import Shomate
+        T = np.linspace(300., 2500., 40)
+        src = Nasa.from_data(name='src', T=T, CpoR=4.0 + 1e-3 * T, T_ref=500., HoRT_ref=-10., SoR_ref=25.)
+        cls = {'Nasa': Nasa, 'Nasa9': Nasa9, 'Shomate': Shomate}[sp['cls']]
+        return cls.from_model(name='X', model=src, T_low=300., T_high=2500., phase=phase, misc_models=models, **extra)
     return gen.build_species(sp, misc_models=models, **extra)
 
 
@@ -179,7 +186,7 @@ CLAUSES = [
            'Nasa / Nasa9 / Shomate x phase in {g, gas, G, Gas, s, S, None} x 0-4 attached models in any order (at most one '
            'GasPressureAdj, 1-4-breakpoint PiecewiseCovEffects on three adsorbates, None entries) x add_gas_P_adj '
            '{default, True, False} x scalar T or arrays/lists of 1-50 temperatures x P 1e-3..1e2 x coverages through per-species '
-           'blocks (and a global x) x path {direct, deepcopy, 1-3 to_dict/from_dict cycles, JSON, from_data}. Oracle: bare '
+           'blocks (and a global x) x path {direct, deepcopy, 1-3 to_dict/from_dict cycles, JSON, from_data, from_model}. Oracle: bare '
            'polynomial + sum of each attached model\'s own contribution per temperature, count of pressure adjustments, '
            'S(P)-S(1)=-ln P and G accordingly for gases, no P dependence otherwise. Non-trivial = >= 2 contributing models, array '
            'T with a coverage effect, or a reload cycle', quick_shards=4),
